@@ -199,7 +199,7 @@ def main() -> int:
     try:
         run_corpus(ctx, mod, prop)
         mod.streams(ctx)
-    except (C.InfrastructureError, OSError, MemoryError, subprocess.TimeoutExpired):
+    except (C.InfrastructureError, FileNotFoundError, PermissionError, MemoryError, subprocess.TimeoutExpired):
         traceback.print_exc()
         print("infrastructure failure in correspondence harness")
         return 2
